@@ -20,6 +20,30 @@ def run(v):
     fcov = run_cmdline_property(v, D.pos_fb_family(SEED + 91, 30 if q else 60, maxlen=3 if q else 4, budget=2500 if q else 20000), None,
                                 signature=cmdline_sig.signature, name="C09f")
     cov = merge_cov(cov, fcov, "defaulted")
+    # completion honours `--` too: after it nothing typed is a name or a subcommand, so none is offered (C14's bounds
+    # on definitions with `--` in the alphabet; in positional-only states MayOffer holds nothing but the `--` hint)
+    from checks import c14
+    cfam = D.cmd_family(SEED + 93, 10 if q else 30, depth=2, maxlen=3, budget=2500, extras=("dd",)) + D.pos_family(SEED + 94, 8 if q else 24, maxlen=3, budget=2500)
+    for d in cfam:
+        d["alpha"]["extras"] = ["dd"]
+        d["alpha"]["clusters"] = False
+        d["alpha"]["spells"] = ["sep"]
+    cpath = os.path.join(WORK, f"C09-{v.tier}-cdefs.ndjson")
+    D.write_ndjson(cpath, cfam)
+    raw, cmeta = cached_tlc_cases("C09-complete", "MC_CmdLine", "MC_CmdLine_complete.cfg", cpath)
+    ccases = os.path.join(WORK, f"C09-{v.tier}-ccases.ndjson")
+    # only the requests made after a `--` are this property's business (the others are C14's)
+    after = os.path.join(WORK, f"C09-{v.tier}-craw.ndjson")
+    with open(after, "w") as w:
+        for c in read_ndjson(raw):
+            if any(it.get("t") == "dd" for it in c["line"]):
+                w.write(json.dumps(c) + "\n")
+    cn = c14.expand(after, ccases)
+    cmm = os.path.join(WORK, f"C09-{v.tier}-cmm.ndjson")
+    run_replay(build_harness(), cpath, ccases, cmm)
+    for m in read_ndjson(cmm):
+        v.report(c14.sig(m), {k: m[k] for k in m if k != "def_full"} | {"def": m.get("def_full", m.get("def"))})
+    cov["completion_requests_around_dashdash"] = cn
     cov["rule"] = ("0..3 positionals of every strictness/arity with 0..2 named items; all lines up to maxlen with `--` at every "
                    "position (also twice), dash-looking items, help, names and `--name=--` on both sides; DashDash checked by TLC")
     cov["exhaustive"] = True
